@@ -622,7 +622,8 @@ func (r *yieldRewriter) rewriteForStmt(
 		return children
 	}
 
-	if body.combineRequired() {
+	continues := targetedBy(stmt.Body, token.CONTINUE)
+	if body.combineRequired() || continues {
 		// combine(delay(body), delay(post))
 		// rewriting by seq.Combine avoiding control flow analysis (merging body & post)
 
@@ -642,6 +643,10 @@ func (r *yieldRewriter) rewriteForStmt(
 		r.generateLastNormalIfNecessary(body)
 
 		callCombine := r.CallCombine(body.block, postBlock.block)
+		if continues {
+			// continue must skip the rest of the body but not the post statement
+			callCombine.Args[0] = r.SeqCall(cstContinuable, callCombine.Args[0])
+		}
 		newBody := mkBlock(body.kind)
 		newBody.pushReturn(callCombine, kindCombine)
 		body = newBody
